@@ -11,6 +11,7 @@ import numpy as np
 
 from . import convlib as L
 from . import stoglib as SL
+from . import setlib as SET
 
 import common as C  # noqa: E402
 
@@ -117,6 +118,7 @@ def generate(rng, tier):
         cases.append({"kind": "cli", "mode": mode, "present": p, "v": v, "files": files,
                       "desc": {"kind": "cli", "form": "flags" if mode else "json", "n_files": nfiles, "fn": FN[v["fn"]],
                                "filter": bool(p["ff"] and v["ff"] == 3), "lorch": bool(p["lorch"] and v["lorch"] == 2)}})
+    cases += SET.generate(rng, tier)
     return cases
 
 
@@ -274,6 +276,8 @@ def run_impl(pystog, case):
     import pystog.cli as cli
     import pystog.io as pio
 
+    if case["kind"] == "setters":
+        return SET.run_impl(pystog, case)
     if case["kind"] == "fileflag":
         vals, kind = case["v"]["vals"], case["v"]["kind"]
         name = (SL.KINDS + [case["v"].get("badname", "bogus(Q)")])[kind]
@@ -399,6 +403,8 @@ def run_impl(pystog, case):
 def to_coq(case, res):
     if "exception" in res:
         return None
+    if case["kind"] == "setters":
+        return SET.to_coq(case, res)
     if case["kind"] == "fileflag":
         return [("chk_fileflag", ([], case["v"]["vals"], [case["v"]["kind"]], [res["fileflag"]]))]
     p, v = case["present"], case["v"]
@@ -429,6 +435,8 @@ def to_coq(case, res):
 
 
 def nontrivial(case, res):
+    if case["kind"] == "setters":
+        return "exception" not in res and SET.nontrivial(case, res)
     return "exception" not in res and sum(case["present"].values()) > 0
 
 
@@ -438,6 +446,8 @@ def oracle(pystog, case, res):
     the CLI produces exactly the files (names and bytes) of the library driven with the same settings"""
     if "exception" in res:
         return "harness could not run the case: %s %s" % (res["exception"], res["message"])
+    if case["kind"] == "setters":
+        return SET.oracle(pystog, case, res)
     if case["kind"] == "fileflag":
         vals, kind = case["v"]["vals"], case["v"]["kind"]
         if kind == 4:
